@@ -449,7 +449,79 @@ def make_functools_module():
         return acc
 
     m.ns["reduce"] = Builtin("reduce", reduce, True)
+
+    def partial(it, fn, *a, **k):
+        return Builtin("partial", lambda it2, *b, **kw: it2.call(fn, list(a) + list(b), {**k, **kw}), True)
+
+    m.ns["partial"] = Builtin("partial", partial, True)
     return m
+
+
+def make_itertools_module():
+    """Eager models (iterables are lists in this interpreter) of the members whose result does not depend on *when* the
+    items are produced.  takewhile / dropwhile / islice / count / cycle are lazy in an observable way (a predicate that
+    looks at state the loop body changes): they stay unmodelled = Unsupported at the point of use."""
+    m = Module("itertools")
+
+    def chain(it, *xs):
+        out = []
+        for x in xs:
+            out.extend(it.iterate(x))
+        return out
+
+    class _Chain:
+        def py_call(self, it, args, kwargs):
+            return chain(it, *args)
+
+        def py_getattr(self, it, name):
+            if name == "from_iterable":
+                return Builtin("chain.from_iterable", lambda it2, xs: chain(it2, *it2.iterate(xs)), True)
+            raise Unsupported(f"itertools.chain.{name} is not modelled by the interpreter")
+
+    m.ns["chain"] = _Chain()
+    m.ns["repeat"] = Builtin("repeat", lambda it, x, n=None: [x] * n if isinstance(n, int) else (_ for _ in ()).throw(Unsupported("itertools.repeat without a concrete count")), True)
+    return m
+
+
+def make_operator_module():
+    m = Module("operator")
+    import ast as _ast
+
+    def attrgetter(it, *names):
+        def get1(it2, obj, dotted):
+            for part in dotted.split("."):
+                obj = it2.getattr(obj, part)
+            return obj
+
+        def call(it2, obj):
+            vals = [get1(it2, obj, n) for n in names]
+            return vals[0] if len(vals) == 1 else tuple(vals)
+        return Builtin("attrgetter", call, True)
+
+    def itemgetter(it, *keys):
+        from . import pybuiltins
+
+        def call(it2, obj):
+            vals = [pybuiltins.getitem(it2, obj, k) for k in keys]
+            return vals[0] if len(vals) == 1 else tuple(vals)
+        return Builtin("itemgetter", call, True)
+
+    m.ns["attrgetter"] = Builtin("attrgetter", attrgetter, True)
+    m.ns["itemgetter"] = Builtin("itemgetter", itemgetter, True)
+    for nm, node in (("add", _ast.Add()), ("sub", _ast.Sub()), ("mul", _ast.Mult()), ("or_", _ast.BitOr()), ("and_", _ast.BitAnd()), ("xor", _ast.BitXor()),
+                     ("lshift", _ast.LShift()), ("rshift", _ast.RShift()), ("floordiv", _ast.FloorDiv()), ("mod", _ast.Mod()), ("truediv", _ast.Div())):
+        m.ns[nm] = Builtin(nm, (lambda n: lambda it, a, b: it.binop(n, a, b))(node), True)
+    m.ns["getitem"] = Builtin("getitem", lambda it, a, b: __import__("pyvc.pybuiltins", fromlist=["getitem"]).getitem(it, a, b), True)
+    m.ns["eq"] = Builtin("eq", lambda it, a, b: it.py_eq(a, b), True)
+    m.ns["ne"] = Builtin("ne", lambda it, a, b: sym_not(it.py_eq(a, b)), True)
+    m.ns["not_"] = Builtin("not_", lambda it, a: not it.test(a), True)
+    m.ns["truth"] = Builtin("truth", lambda it, a: it.test(a), True)
+    return m
+
+
+def sym_not(x):
+    from .sym import Not
+    return (not x) if isinstance(x, bool) else Not(x)
 
 
 # -------------------------------------------------------------------------------------
